@@ -24,11 +24,15 @@ for d in sorted(glob.glob("/verif/seeded/*/")):
         if r.returncode != 0:
             meta["detected_by"] = None; meta["note"] = "patch no longer applies to /repo HEAD: " + r.stderr.strip()[:200]
         else:
-            for p in claimed:
+            def one(p):
                 out = subprocess.run(["timeout", "600", BIN, "-property", p, "-no-evidence", "-repo", WT, "-verif", "/verif"], capture_output=True, text=True).stdout
                 keys = [l[4:].split(" | ")[0] for l in out.splitlines() if l.startswith("BAD ")]
                 if "engine/undecided" in out: keys.append("engine/undecided")
-                if keys: fired[p] = keys[:4]
+                return p, keys
+            from concurrent.futures import ThreadPoolExecutor
+            with ThreadPoolExecutor(8) as ex:
+                for p, keys in ex.map(one, claimed):
+                    if keys: fired[p] = keys[:4]
             meta["detected_by"] = fired
     finally:
         subprocess.run(f"git -C {WT} checkout -- .", shell=True)
